@@ -152,6 +152,12 @@ public:
     void type_scalar(PREFIX) override;
     void type_name(PREFIX, const char* name) override;
     bool is_type(const char*) override;
+    size_t scope_depth() const override { return frames.size(); }
+    void restore_scope(size_t depth) override
+    {
+        while (frames.size() > depth)
+            frames.pop();
+    }
     void expr_true() override;
     void expr_false() override;
     void expr_double(double) override;
